@@ -6,7 +6,8 @@ shard; the DOM is then serialised under every enumerated preference assignment:
   single   every preference alone with every value of its finite domain
   pair     every two preferences with every two values
   min<=k   the minified preset (Preferences.useMinified) with at most k further deviations
-  cube     the full cube of the 14 content-affecting booleans (thorough, 5 sheets)
+  triple   every three content-affecting deviations (thorough)
+  cube     the full cube of the 14 content-affecting booleans (thorough, 8 sheets)
   private  every single and the preset again through a private CSSSerializer(prefs=...) installed with
            cssutils.setSerializer (preferences set by attribute and given to the constructor)
   script   cssutils.script.csscombine(cssText=..., minify=..., resolveVariables=...)
@@ -16,7 +17,8 @@ into the one the documentation promises; the output is reparsed and must project
 (C06.effect), its tokens must spell at-keywords, variable names, hash colours, numbers and the last semicolon as
 documented (C06.text), it must reparse without a new error and never raise (C06.wellformed), a layout-only
 assignment must give the token sequence of the default output (C06.layout), useDefaults() must give the default
-bytes back (C06.restore), the private serializer must answer like the global one (C06.private).
+bytes back (C06.restore), the private serializer must answer like the global one (C06.private), a rule serialised alone has the
+tokens it has inside its sheet (C06.rule).
 """
 import itertools
 import re
@@ -33,9 +35,9 @@ from mc.result import Result, h64
 ID = 'C06'
 LEVEL = 'exploration'
 RULE = (
-    'bounded products over the preference space x a corpus of 17 sheets: every preference alone with every value of its finite domain, '
-    'every pair of (preference, value) deviations, the minified preset with <=k further deviations (k=1 quick, 2 thorough), the full 2^14 '
-    'cube of the content-affecting booleans on 5 sheets (thorough); every (sheet, assignment) is generated once; non-trivial = the output '
+    'bounded products over the preference space x a corpus of 19 sheets: every preference alone with every value of its finite domain, '
+    'every pair of (preference, value) deviations, the minified preset with <=k further deviations (k=1 quick, 2 thorough), all triples of content-affecting deviations and the full 2^14 '
+    'cube of the content-affecting booleans on 8 sheets (thorough); every (sheet, assignment) is generated once; non-trivial = the output '
     'differs from the default output of that sheet (measured)'
 )
 ASSUMPTIONS = [
@@ -44,11 +46,14 @@ ASSUMPTIONS = [
     'is read from the tokens of the corpus text',
     'a zero length may lose its unit, numbers are compared by value (C18)',
     'the literal name of a property is Property.literalname (lower-cased, escapes kept): upper-case spellings of names are not expected back',
-    'an unknown at-rule has no default form of its keyword and keeps its spelling under defaultAtKeyword True and False',
+    'the default form of the keyword of an unknown at-rule is its normalised (lower-case, unescaped) spelling',
     'keepEmptyRules=False: a rule whose content was filtered away counts as empty, a rule holding only a kept comment does not (docs silent, as the code)',
     'keepUsedNamespaceRulesOnly: "used" is judged on the DOM, not on what the other filters leave (docs silent, as the code)',
     'validOnly x keepAllProperties=False: the effective declaration is chosen first, then dropped if invalid (docs silent, as the code)',
     'a later @variables definition of a name replaces an earlier one; names are compared normalised',
+    'omitLastSemicolon: the ";" is only expected to go when the last declaration is the last item of its block in the DOM (a trailing comment, unknown '
+    'at-rule or filtered declaration keeps it: pinned by test_cssstyledeclaration, test_cssstylerule, test_serialize.test_validOnly and the website doctest); '
+    '@page and @variables blocks are not judged',
     'lineNumbers is judged after removing the "<n>: " prefix of every line (the format is not documented; it is no CSS)',
     'indentSpecificities (EXPERIMENTAL) is treated as a layout preference: it may only change white space',
     'the values useMinified() sets are read from the library; the oracle judges the assignment that is then in force',
@@ -56,8 +61,8 @@ ASSUMPTIONS = [
     'comments inside selectors, values and media lists are covered by C06.layout and by "no comment token when keepComments=False" only',
 ]
 FLOORS = {
-    'quick': {'outcomes': 1500, 'evaluations': 9000, 'set:effective': 34, 'set:model_effective': 19, 'set:features': 10},
-    'thorough': {'outcomes': 3000, 'evaluations': 90000, 'set:effective': 34, 'set:model_effective': 19, 'set:features': 10},
+    'quick': {'outcomes': 1500, 'evaluations': 9000, 'set:effective': 34, 'set:model_effective': 16, 'set:features': 10},
+    'thorough': {'outcomes': 5000, 'evaluations': 150000, 'set:effective': 34, 'set:model_effective': 16, 'set:features': 10},
 }
 
 SHEETS = {
@@ -70,14 +75,15 @@ SHEETS = {
           'u|a{color:red}@media print{m|b{left:0}}c[t|x=y]{top:0}',
     'ns2': '@namespace "http://d";@namespace u "http://u";@namespace n "http://n";@namespace e "http://e";u|a,*|b,|c{color:red}e|z{}',
     'dups': 'a{color:red;color:blue!important;color:green;left:1px;left:2px;top:1px!important;top:2px!important;c\\olor:yellow;right:0}'
-            '@page{margin:1px;margin:2px}@font-face{font-family:x;font-family:y}',
+            '@page{margin:1px;margin:2px}@font-face{font-family:x;font-family:y}b{bo\\ttom:1px;BOTTOM:2px;ri\\ght:3px}',
     'invalid': 'a{color:1px;xcolor:red;color:red;left:nope}@font-face{font-family:x;src:url(a.ttf);colour:red;color:1px}@page{margin:nope;size:a4}'
                'b{xonly:1}@media print{c{top:red;top:0}e{bottom:x}}',
-    'vars': '@variables{C:red;d:1px}@variables{d:2px;e:"s"}a{color:var(C);left:var(d);top:var(nope);content:var(e);margin:var(d) var(d);right:var(nope, 3px)}'
+    'vars': '@variables{C:red;d:1px}@variables{d:2px;e:"s";/*vc*/}a{color:var(C);left:var(d);top:var(nope);content:var(e);margin:var(d) var(d);right:var(nope, 3px)}'
             '@media print{b{left:var(d)}}',
     'imports': '@charset "utf-8";@import "s.css";@import url(u.css) print,tv;@import \'s2.css\' all;@import url("q.css") tv "nm";a{color:red}',
     'literal': '@i\\mport "i.css";@IMPORT "j.css";@NameSpace l "http://l";@VARIABLES{Xy:1px}@MEDIA print{l|a{c\\olor:red !IMPORTANT;COLOR:blue;color:green!Im\\portant}}'
                '@PAGE :first{margin:0;@TOP-left{color:red}}@Font-Face{font-family:x}b{left:var(xY);t\\op:2px;top:3px}',
+    'literal2': '@i\\mport "i.css";@IMPORT "j.css";@NameSpace l "http://l";l|a{ri\\ght:0 !IMPORTANT}',
     'numbers': 'a{opacity:0.5;left:-0.5px;top:10.50px;right:+0.5em;width:.25em;height:-.75em;bottom:0;margin:1.0px 0.05em -0.050em 100.0%;line-height:1.5}'
                '@media (min-width:0.5em){b{top:0.5px}}',
     'colors': 'a{color:#aabbcc;background-color:#aabbcd;border-color:#ABC;outline-color:#AABBCC;border-top-color:#a1b2c3}b{color:#FFFFFF;background:#fff url(x.png)}',
@@ -86,13 +92,17 @@ SHEETS = {
     'page': '@page :first{margin:1cm;@top-left{content:"x";color:red}@bottom-center{content:"y"}}@page{size:a4}@page named:left{@top-right{color:blue}margin:0}',
     'selectors': 'a>b+c~d e,f.g#h[i=j]:hover::before,*{font-family:a,"b c",serif;margin:1px 2px;font:12px/1.5 a,b;content:"x" attr(y) counter(z,upper-roman);'
                  'background:url(i.png) no-repeat}k:not(.l):nth-child(2n+1){x:f(1,2 3)}e{left:0}e.f{left:1px}e.f .g{left:2px}q{left:3px}',
+    'values': 'a{color:rgb(1, 2, 3);background:rgba(0,0,0,0.5) url("a b.png");width:calc(1px + 0.5em);height:calc( 100% - -0.5px );margin:-0.5px auto;'
+              'unicode-range:U+0-7F;filter:alpha(opacity=50);content:"a\\"b" \'c\' "";quotes:"\\201c" "\\201d";font:italic bold 0.8em/1.2 Arial,sans-serif;'
+              'transform:translate(-0.5px,0.5px) rotate(0.25turn);z-index:-1;color:hsl(120,100%,50%)!important}'
+              '@media screen and (min-width:0.5em) and (max-width:10.5em),print{b[c="d e"]:not(.f)>g{left:+.5px;top:-.5em}}',
     'mlcomment': 'a{/*one\ntwo*/color:red}@media print{/*x\n  y*/b{left:0}}',
     'mix': '@IMPORT "i.css";@namespace u "http://u";@namespace n "http://n";@variables{V:red;w:0.5px}/*c0*/'
            '@MEDIA print{u|a{c\\olor:red;color:1px !IMPORTANT;left:var(w);left:nope;/*c1*/}@x y;b{}}'
            'c{color:var(V);xx:0.5;background-color:#aabbcc;@y z;top:var(none)}d{/*c2*/}@page{margin:0.5cm;@top-left{color:#AABBCC;/*c3*/}}',
 }
-CUBE_SHEETS = ['mix', 'comments', 'invalid', 'literal', 'vars']
-NO_IMPORT = [k for k, t in SHEETS.items() if 'import' not in t.lower()]
+CUBE_SHEETS = ['mix', 'comments', 'invalid', 'literal', 'vars', 'dups', 'unknown', 'empty']
+NO_IMPORT = [k for k, t in SHEETS.items() if 'import' not in t.lower() and k != 'mlcomment']
 
 SPACERS = ['', ' ', '\t']
 DOMAIN = {
@@ -129,12 +139,18 @@ def pairs(base=M.DEFAULTS):
     return [(a, b) for a, b in itertools.combinations(s, 2) if a[0] != b[0]]
 
 
+def triples():
+    s = [d for d in singles() if d[0] not in M.LAYOUT]
+    return [t for t in itertools.combinations(s, 3) if len({d[0] for d in t}) == 3]
+
+
 def bounds(tier):
     q = tier == 'quick'
     return {
         'sheets': len(SHEETS), 'preferences': len(DOMAIN), 'domain_values': sum(len(v) for v in DOMAIN.values()),
         'single_deviations': len(singles()), 'pair_deviations': len(pairs()),
         'minified_preset_k': 1 if q else 2, 'minified_deviations_1': len(singles(MINIFIED)), 'minified_deviations_2': 0 if q else len(pairs(MINIFIED)),
+        'content_triples': 0 if q else len(triples()),
         'cube_booleans': 0 if q else len(CUBE), 'cube_sheets': 0 if q else len(CUBE_SHEETS),
         'layout_preferences': list(M.LAYOUT),
     }
@@ -237,6 +253,29 @@ def kinds(exp, got):
     return '/'.join(names[-3:]) + ':' + kind
 
 
+_KIND_ORDER = ['decl', 'comment', 'other', 'margin', 'style', 'import', 'namespace', 'variables', 'unknown', 'font-face', 'page', 'media', 'charset']
+
+
+def _count_kinds(tree, out):
+    for n in tree:
+        out[n['k']] = out.get(n['k'], 0) + 1
+        for b in n.get('body', ()):
+            out[b['k']] = out.get(b['k'], 0) + 1
+        if 'rules' in n:
+            _count_kinds(n['rules'], out)
+    return out
+
+
+def symptom(want_tree, got_tree, want, got):
+    """symptom class of a DOM difference: the innermost kind of node that was lost or appeared; if the node counts agree, the kinds on
+    the way to the first difference"""
+    w, g = _count_kinds(want_tree, {}), _count_kinds(got_tree, {})
+    for k in _KIND_ORDER:
+        if w.get(k, 0) != g.get(k, 0):
+            return f'{k}:' + ('lost' if g.get(k, 0) < w.get(k, 0) else 'extra')
+    return kinds(want, got)
+
+
 def set_prefs(prefs, preset, devs):
     if preset == 'minified':
         prefs.useMinified()
@@ -244,8 +283,8 @@ def set_prefs(prefs, preset, devs):
         setattr(prefs, p, v)
 
 
-def serialise(sh, preset, devs, via):
-    """-> (assignment in force, output bytes) ; raises what the library raises"""
+def install(preset, devs, via):
+    """put the assignment in force -> the assignment as the library holds it"""
     guard.pristine()
     if via == 'global':
         prefs = cssutils.ser.prefs
@@ -257,7 +296,12 @@ def serialise(sh, preset, devs, via):
             prefs = cssutils.serialize.Preferences()
             set_prefs(prefs, preset, devs)
         cssutils.setSerializer(cssutils.serialize.CSSSerializer(prefs=prefs))
-    a = {k: getattr(prefs, k) for k in M.DEFAULTS}
+    return {k: getattr(prefs, k) for k in M.DEFAULTS}
+
+
+def serialise(sh, preset, devs, via):
+    """-> (assignment in force, output bytes) ; raises what the library raises"""
+    a = install(preset, devs, via)
     return a, sh.dom.cssText
 
 
@@ -288,7 +332,7 @@ def judge(sh, a, out, res=None):
         back = _parser().parseString(text.encode('utf-8'))
     new = [e for e in errors_of(h.records) if e not in sh.err0]
     if new:
-        fails.append(('C06.wellformed', 'reparse-error:' + '-'.join(_WORDS.findall(new[0])[:7]), sh.err0, new[:3]))
+        fails.append(('C06.wellformed', 'reparse-error:' + '-'.join(_WORDS.findall(new[0].split(': ')[-1] if new[0].count(': ') else new[0])[:4]), sh.err0, new[:3]))
     toks = M.tokens(text)
     # --- layout
     if layout_only:
@@ -310,7 +354,7 @@ def judge(sh, a, out, res=None):
     got = zero_units(M.plain(got_tree, hreftype=True))
     if got != want:
         d = P.diff_path(want, got)
-        fails.append(('C06.effect', kinds(want, got), {'at': list(d[0]), 'documented': d[1]}, {'reparsed': d[2]}))
+        fails.append(('C06.effect', symptom(want_tree, got_tree, want, got), {'at': list(d[0]), 'documented': d[1]}, {'reparsed': d[2]}))
         return fails
     # --- effect on the text
     clause('C06.text')
@@ -331,22 +375,51 @@ def judge(sh, a, out, res=None):
             fails.append(('C06.text', f'{why}|number', 'omitLeadingZero=%r' % a['omitLeadingZero'], n))
             break
     ends = M.block_ends(toks)
-    bad = 'semi' if a['omitLastSemicolon'] else 'open'
-    if bad in ends:
-        fails.append(('C06.text', ('last-semicolon-kept' if a['omitLastSemicolon'] else 'last-semicolon-missing') + '|decl',
-                      'omitLastSemicolon=%r' % a['omitLastSemicolon'], '%d block(s) of %d' % (ends.count(bad), len(ends))))
+    if a['omitLastSemicolon']:
+        must, may = M.semicolon_bounds(want_tree)
+        if ends.count('open') < must or ends.count('semi') > may:
+            fails.append(('C06.text', 'last-semicolon-kept|decl', f'>={must} blocks end without ";", <={may} with', '%d without, %d with' % (ends.count('open'), ends.count('semi'))))
+    elif 'open' in ends:
+        fails.append(('C06.text', 'last-semicolon-missing|decl', 'every last declaration is followed by ";"', '%d block(s) of %d' % (ends.count('open'), len(ends))))
     if not a['keepComments'] and any(t == 'COMMENT' for t, v in toks):
         fails.append(('C06.text', 'comment-kept|comment', 'no comment', [v for t, v in toks if t == 'COMMENT'][:3]))
     return fails
 
 
-def evaluate(sh, preset, devs, via='global', res=None):
+def judge_rules(sh, a, out, alone, res=None):
+    """every top-level rule serialised on its own gives the tokens it has inside the sheet (the namespace filter, line numbers and
+    the experimental specificity indentation are documented for whole sheets only)"""
+    if a['lineNumbers'] or a['indentSpecificities']:
+        return []
+    if res is not None:
+        res.clauses['C06.rule'] += 1
+    used = M.used_namespaces(sh.tree)
+    texts = []
+    for node, text in zip(sh.tree, alone):
+        if node['k'] == 'namespace' and a['keepUsedNamespaceRulesOnly'] and node['uri'] not in used:
+            continue
+        if text:
+            texts.append(text)
+    got = M.tokens(a['lineSeparator'].join(texts))
+    want = M.tokens(out.decode('utf-8'))
+    if got != want:
+        i = next((i for i, (x, y) in enumerate(zip(got, want)) if x != y), min(len(got), len(want)))
+        w = want[i] if i < len(want) else ('<end>', '')
+        return [('C06.rule', f'rule-alone-differs-from-rule-in-sheet|{w[0]}', [list(x) for x in want[max(0, i - 2):i + 2]], [list(x) for x in got[max(0, i - 2):i + 2]])]
+    return []
+
+
+def evaluate(sh, preset, devs, via='global', res=None, rules=True):
     """run one case completely -> (assignment or None, output or None, failures)"""
     fails = []
     a = out = None
+    alone = None
     try:
         with guard.watchdog(WATCHDOG):
-            a, out = serialise(sh, preset, devs, via)
+            a = install(preset, devs, via)
+            out = sh.dom.cssText
+            if rules:
+                alone = [r.cssText for r in sh.dom.cssRules]
     except guard.Timeout:
         fails.append(('C06.wellformed', 'timeout|serialise', 'an output', f'nothing within {WATCHDOG} s'))
     except Exception as e:
@@ -373,6 +446,8 @@ def evaluate(sh, preset, devs, via='global', res=None):
         try:
             with guard.watchdog(WATCHDOG):
                 fails.extend(judge(sh, a, out, res))
+                if alone is not None:
+                    fails.extend(judge_rules(sh, a, out, alone, res))
         except guard.Timeout:
             fails.append(('C06.wellformed', 'timeout|reparse', 'a DOM', 'timeout'))
         except Exception as e:
@@ -397,7 +472,7 @@ def reduce_devs(sh, devs, clause, symptom, via):
         changed = False
         for d in list(cur):
             trial = [x for x in cur if x != d]
-            _, _, f = evaluate(sh, None, trial, via)
+            _, _, f = evaluate(sh, None, trial, via, rules=clause == 'C06.rule')
             if any(c == clause and s == symptom for c, s, _, _ in f):
                 cur = trial
                 changed = True
@@ -431,7 +506,7 @@ def record(res, sh, kind, preset, devs, via, a, fails, cache):
 
 def run_case(res, sh, kind, preset, devs, cache, via='global'):
     res.evaluations += 1
-    a, out, fails = evaluate(sh, preset, devs, via, res)
+    a, out, fails = evaluate(sh, preset, devs, via, res, rules=kind != 'cube')
     if out is not None:
         res.outcomes.add(h64(out))
         if out != sh.d0:
@@ -508,6 +583,8 @@ def plan(tier):
         if not q:
             for lo, hi in _chunks(nm2, CHUNK):
                 shards.append(['min2', name, lo, hi])
+            for lo, hi in _chunks(len(triples()), CHUNK):
+                shards.append(['triple', name, lo, hi])
         shards.append(['private', name, 0, 0])
     if not q:
         for name in CUBE_SHEETS:
@@ -568,6 +645,9 @@ def run_shard(shard, tier, seed):
     elif kind == 'min2':
         for x, y in pairs(MINIFIED)[lo:hi]:
             run_case(res, sh, kind, 'minified', [x, y], cache)
+    elif kind == 'triple':
+        for t in triples()[lo:hi]:
+            run_case(res, sh, kind, None, list(t), cache)
     elif kind == 'cube':
         order = sorted(range(lo, hi), key=lambda i: (bin(i).count('1'), i))
         for i in order:
@@ -589,38 +669,49 @@ def run_private(res, sh, cache):
             if via == 'private-ctor' and preset:
                 continue
             res.evaluations += 1
-            res.clauses['C06.private'] += 1
-            case = {'sheet': sh.name, 'text': sh.text, 'preset': preset, 'set': [list(d) for d in devs], 'via': via}
-            outs = {}
-            err = None
-            for v in ('global', via):
-                try:
-                    with guard.watchdog(WATCHDOG):
-                        outs[v] = serialise(sh, preset, devs, v)
-                except guard.Timeout:
-                    err = (v, 'timeout')
-                except Exception as e:
-                    outs[v] = ('raised', guard.crash_site(e))
-                guard.pristine()
-            if err:
-                res.violation('C06.private', f'timeout|{err[0]}', case, 'an output', 'timeout')
-                continue
-            if outs['global'] == outs[via]:
-                if isinstance(outs[via][1], bytes):
-                    res.outcomes.add(h64(outs[via][1]))
-                continue
-            ag, og = outs['global']
-            ap, op = outs[via]
-            if via == 'private-ctor' and isinstance(ag, dict) and isinstance(ap, dict) and ag != ap:
-                lost = sorted(k for k in ag if ag[k] != ap[k])
-                falsy = all(not ag[k] for k in lost)
-                res.violation('C06.private', 'constructor-ignores-initial|' + ('falsy-value' if falsy else 'value'), case, {k: ag[k] for k in lost},
-                              {k: ap[k] for k in lost}, size=len(devs) * 10000 + len(sh.text))
-            else:
-                res.violation('C06.private', f'output-differs-from-global-serializer|{via}|prefs={label(sorted(devs))}', case,
-                              og if not isinstance(og, bytes) else og.decode('utf-8', 'replace')[:300],
-                              op if not isinstance(op, bytes) else op.decode('utf-8', 'replace')[:300], size=len(devs) * 10000 + len(sh.text))
+            private_case(res, sh, preset, devs, via)
     res.sample({'sheet': sh.name, 'text': sh.text, 'preset': 'minified', 'set': [], 'via': 'private-attr'})
+
+
+def private_case(res, sh, preset, devs, via):
+    """the same assignment on the process-wide serializer and on a private one installed with setSerializer"""
+    res.clauses['C06.private'] += 1
+    case = {'sheet': sh.name, 'text': sh.text, 'preset': preset, 'set': [list(d) for d in devs], 'via': via}
+    want = dict(MINIFIED if preset == 'minified' else M.DEFAULTS)
+    want.update(dict(devs))
+    try:
+        have = install(preset, devs, via)
+    except Exception as e:
+        guard.pristine()
+        res.violation('C06.private', guard.crash_site(e) + f'|{via}', case, 'a serializer', repr(e)[:300])
+        return
+    guard.pristine()
+    if have != want:
+        lost = sorted(k for k in want if want[k] != have[k])
+        falsy = all(not want[k] for k in lost)
+        res.violation('C06.private', ('constructor' if via == 'private-ctor' else 'attribute') + '-ignores-initial|' + ('falsy-value' if falsy else 'value'),
+                      case, {k: want[k] for k in lost}, {k: have[k] for k in lost}, size=len(devs) * 10000 + len(sh.text))
+        return
+    outs = {}
+    for v in ('global', via):
+        try:
+            with guard.watchdog(WATCHDOG):
+                outs[v] = serialise(sh, preset, devs, v)[1]
+        except guard.Timeout:
+            guard.pristine()
+            res.violation('C06.private', f'timeout|{v}', case, 'an output', 'timeout')
+            return
+        except Exception as e:
+            outs[v] = guard.crash_site(e)
+        guard.pristine()
+    og, op = outs['global'], outs[via]
+    if og == op:
+        if isinstance(op, bytes):
+            res.outcomes.add(h64(op))
+        return
+    res.violation('C06.private', f'output-differs-from-global-serializer|{via}|prefs={label(sorted(devs))}', case,
+                  og if not isinstance(og, bytes) else og.decode('utf-8', 'replace')[:300],
+                  op if not isinstance(op, bytes) else op.decode('utf-8', 'replace')[:300], size=len(devs) * 10000 + len(sh.text))
 
 
 def run_script(res, sh, only=None):
@@ -656,13 +747,14 @@ def run_script(res, sh, only=None):
             want = zero_units(M.plain(want_tree, hreftype=True))
             with guard.watchdog(WATCHDOG):
                 back = _parser().parseString(out)
-                got = zero_units(M.plain(M.annotate(back), hreftype=True))
-            if got[:1] == (('charset', 'utf-8'),) and want[:1] != (('charset', 'utf-8'),):
-                got = got[1:]
+                got_tree = M.annotate(back)
+            if got_tree[:1] == [{'k': 'charset', 'enc': 'utf-8'}] and want[:1] != (('charset', 'utf-8'),):
+                got_tree = got_tree[1:]
+            got = zero_units(M.plain(got_tree, hreftype=True))
             res.outcomes.add(h64(out))
             if got != want:
                 d = P.diff_path(want, got)
-                res.violation('C06.script', f'{kinds(want, got)}|minify={minify}|resolveVariables={resolve}', case, {'at': list(d[0]), 'documented': d[1]},
+                res.violation('C06.script', f'{symptom(want_tree, got_tree, want, got)}|minify={minify}|resolveVariables={resolve}', case, {'at': list(d[0]), 'documented': d[1]},
                               {'reparsed': d[2]}, note=out.decode('utf-8', 'replace')[:300])
     guard.pristine()
 
@@ -676,44 +768,12 @@ def replay(case, tier, seed):
     devs = [tuple(x) for x in case['set']]
     via = case.get('via', 'global')
     if via != 'global':
-        one = Result(seed)
-        # the private clause compares two serialisers: re-run exactly that comparison
-        global_singles, global_pairs = singles, pairs
-        _replay_private(one, sh, case['preset'], devs, via)
-        res.merge(one)
+        private_case(res, sh, case['preset'], devs, via)
         guard.pristine()
         return res
     run_case(res, sh, 'replay', case['preset'], devs, {})
     guard.pristine()
     return res
-
-
-def _replay_private(res, sh, preset, devs, via):
-    case = {'sheet': sh.name, 'text': sh.text, 'preset': preset, 'set': [list(d) for d in devs], 'via': via}
-    outs = {}
-    for v in ('global', via):
-        try:
-            with guard.watchdog(WATCHDOG):
-                outs[v] = serialise(sh, preset, devs, v)
-        except guard.Timeout:
-            res.violation('C06.private', f'timeout|{v}', case, 'an output', 'timeout')
-            return
-        except Exception as e:
-            outs[v] = ('raised', guard.crash_site(e))
-        guard.pristine()
-    if outs['global'] == outs[via]:
-        return
-    ag, og = outs['global']
-    ap, op = outs[via]
-    if via == 'private-ctor' and isinstance(ag, dict) and isinstance(ap, dict) and ag != ap:
-        lost = sorted(k for k in ag if ag[k] != ap[k])
-        falsy = all(not ag[k] for k in lost)
-        res.violation('C06.private', 'constructor-ignores-initial|' + ('falsy-value' if falsy else 'value'), case, {k: ag[k] for k in lost},
-                      {k: ap[k] for k in lost}, size=len(devs) * 10000 + len(sh.text))
-    else:
-        res.violation('C06.private', f'output-differs-from-global-serializer|{via}|prefs={label(sorted(devs))}', case,
-                      og if not isinstance(og, bytes) else og.decode('utf-8', 'replace')[:300],
-                      op if not isinstance(op, bytes) else op.decode('utf-8', 'replace')[:300], size=len(devs) * 10000 + len(sh.text))
 
 
 def standalone(case, v):
